@@ -104,3 +104,184 @@ pub fn lzma2_raw_decode(data: &[u8], dict: u32) -> Result<Vec<u8>, String> {
 fn run_prefix(s: Stream, input: &[u8]) -> Result<Vec<u8>, String> {
     run(s, input)
 }
+
+// ------------------------------------------------------------------------------------------------
+// Container helpers (XZ / LZIP areas c02, c03, c04, c12, c18).
+// liblzma cannot ENCODE the lzip format (it only has a decoder): reference-made .lz files are
+// built by wrapping liblzma's LZMA_Alone stream (lc=3, lp=0, pb=2, end marker) in a member frame.
+
+use liblzma::stream::{Check, MatchFinder, Mode, MtStreamBuilder, CONCATENATED};
+
+/// Decodes a whole .xz file (any number of concatenated streams with stream padding); all input
+/// must belong to the file.
+pub fn xz_decode_concat(data: &[u8]) -> Result<Vec<u8>, String> {
+    let dec = Stream::new_stream_decoder(u64::MAX, CONCATENATED).map_err(|e| format!("{e:?}"))?;
+    run(dec, data)
+}
+
+/// Decodes a whole .lz file (all members; trailing data after the last member is ignored).
+pub fn lzip_decode_concat(data: &[u8]) -> Result<Vec<u8>, String> {
+    let dec = Stream::new_lzip_decoder(u64::MAX, CONCATENATED).map_err(|e| format!("{e:?}"))?;
+    run(dec, data)
+}
+
+pub fn check_of(b: u8) -> Check {
+    match b {
+        0 => Check::None,
+        1 => Check::Crc32,
+        4 => Check::Crc64,
+        _ => Check::Sha256,
+    }
+}
+
+/// LZMA options of the reference encoder: a preset (bit 31 = extreme) with optional overrides.
+#[derive(Clone, Debug)]
+pub struct RefLzma {
+    pub preset: u32,
+    pub dict: Option<u32>,
+    pub lclppb: Option<(u32, u32, u32)>,
+    pub nice: Option<u32>,
+    pub mf: Option<u32>,   // 0 hc3, 1 hc4, 2 bt2, 3 bt3, 4 bt4
+    pub mode: Option<u32>, // 0 fast, 1 normal
+    pub depth: Option<u32>,
+}
+
+impl RefLzma {
+    pub fn options(&self) -> Result<LzmaOptions, String> {
+        let mut o = LzmaOptions::new_preset(self.preset).map_err(|e| format!("{e:?}"))?;
+        if let Some(d) = self.dict {
+            o.dict_size(d);
+        }
+        if let Some((lc, lp, pb)) = self.lclppb {
+            o.literal_context_bits(lc);
+            o.literal_position_bits(lp);
+            o.position_bits(pb);
+        }
+        if let Some(n) = self.nice {
+            o.nice_len(n);
+        }
+        if let Some(m) = self.mf {
+            o.match_finder(match m { 0 => MatchFinder::HashChain3, 1 => MatchFinder::HashChain4, 2 => MatchFinder::BinaryTree2, 3 => MatchFinder::BinaryTree3, _ => MatchFinder::BinaryTree4 });
+        }
+        if let Some(m) = self.mode {
+            o.mode(if m == 0 { Mode::Fast } else { Mode::Normal });
+        }
+        if let Some(d) = self.depth {
+            o.depth(d);
+        }
+        Ok(o)
+    }
+}
+
+fn filter_kind_name(id: u8) -> &'static str {
+    match id { 3 => "delta", 4 => "x86", 5 => "ppc", 6 => "ia64", 7 => "arm", 8 => "armthumb", 9 => "sparc", 10 => "arm64", _ => "riscv" }
+}
+
+/// Filter chain [pre-filters (file-format id, property as the crate's FilterConfig has it), LZMA2].
+pub fn ref_chain(pre: &[(u8, u32)], lzma: &LzmaOptions) -> Result<Filters, String> {
+    let mut chain = Filters::new();
+    for &(id, prop) in pre {
+        if id == 3 {
+            add_filter(&mut chain, "delta", &[(prop - 1) as u8])?;
+        } else if prop == 0 {
+            add_filter(&mut chain, filter_kind_name(id), &[])?;
+        } else {
+            add_filter(&mut chain, filter_kind_name(id), &prop.to_le_bytes())?;
+        }
+    }
+    chain.lzma2(lzma);
+    Ok(chain)
+}
+
+/// Feeds `input` and ends with `last` (Finish / FullFlush); collects output into `out`.
+fn feed(s: &mut Stream, input: &[u8], out: &mut Vec<u8>, last: Action) -> Result<(), String> {
+    let mut pos = 0usize;
+    loop {
+        if out.capacity() - out.len() < 4096 {
+            out.reserve(65536);
+        }
+        let before = s.total_in();
+        let action = if pos >= input.len() { last } else { Action::Run };
+        let st = s.process_vec(&input[pos..], out, action).map_err(|e| format!("{e:?}"))?;
+        pos += (s.total_in() - before) as usize;
+        match st {
+            Status::StreamEnd => return Ok(()),
+            Status::MemNeeded => return Err("memneeded".into()),
+            _ => {}
+        }
+    }
+}
+
+/// Single-threaded stream encoder with an explicit chain; a FullFlush after each but the last
+/// segment ends the current Block, so several segments give a multi-block file.
+pub fn xz_encode_ref(pre: &[(u8, u32)], lzma: &RefLzma, check: u8, segments: &[Vec<u8>]) -> Result<Vec<u8>, String> {
+    let o = lzma.options()?;
+    let chain = ref_chain(pre, &o)?;
+    let mut enc = Stream::new_stream_encoder(&chain, check_of(check)).map_err(|e| format!("{e:?}"))?;
+    let mut out = Vec::new();
+    if segments.is_empty() {
+        feed(&mut enc, &[], &mut out, Action::Finish)?;
+    }
+    for (i, seg) in segments.iter().enumerate() {
+        let last = i + 1 == segments.len();
+        if !last && seg.is_empty() {
+            continue;
+        }
+        feed(&mut enc, seg, &mut out, if last { Action::Finish } else { Action::FullFlush })?;
+    }
+    Ok(out)
+}
+
+pub fn xz_encode_easy(preset: u32, check: u8, data: &[u8]) -> Result<Vec<u8>, String> {
+    let enc = Stream::new_easy_encoder(preset, check_of(check)).map_err(|e| format!("{e:?}"))?;
+    run(enc, data)
+}
+
+/// Multi-threaded encoder: Block Headers carry Compressed Size and Uncompressed Size.
+pub fn xz_encode_mt(pre: &[(u8, u32)], lzma: &RefLzma, check: u8, block_size: u64, threads: u32, data: &[u8]) -> Result<Vec<u8>, String> {
+    let o = lzma.options()?;
+    let chain = ref_chain(pre, &o)?;
+    let mut b = MtStreamBuilder::new();
+    b.threads(threads).block_size(block_size).filters(chain).check(check_of(check));
+    let enc = b.encoder().map_err(|e| format!("{e:?}"))?;
+    run(enc, data)
+}
+
+/// LZMA_Alone stream (13-byte header, unknown size, end marker) of the reference encoder.
+pub fn lzma_alone_encode_ref(lzma: &RefLzma, data: &[u8]) -> Result<Vec<u8>, String> {
+    let o = lzma.options()?;
+    let enc = Stream::new_lzma_encoder(&o).map_err(|e| format!("{e:?}"))?;
+    run(enc, data)
+}
+
+/// Number of bytes liblzma produces for a file before it accepts or rejects it (the generators
+/// keep damaged files whose decoding inflates beyond the model's output budget out of the
+/// specification-vs-liblzma comparison).
+pub fn decoded_len(lzip: bool, data: &[u8]) -> usize {
+    let dec = if lzip { Stream::new_lzip_decoder(u64::MAX, CONCATENATED) } else { Stream::new_stream_decoder(u64::MAX, CONCATENATED) };
+    let mut s = match dec {
+        Ok(s) => s,
+        Err(_) => return 0,
+    };
+    let mut out = Vec::with_capacity(data.len() + 4096);
+    let mut pos = 0usize;
+    loop {
+        if out.capacity() - out.len() < 4096 {
+            out.reserve(65536);
+        }
+        let before = s.total_in();
+        let action = if pos >= data.len() { Action::Finish } else { Action::Run };
+        let st = match s.process_vec(&data[pos..], &mut out, action) {
+            Ok(st) => st,
+            Err(_) => return out.len(),
+        };
+        pos += (s.total_in() - before) as usize;
+        match st {
+            Status::StreamEnd | Status::MemNeeded => return out.len(),
+            _ => {}
+        }
+        if out.len() > (1 << 24) {
+            return out.len();
+        }
+    }
+}
